@@ -257,6 +257,16 @@ def run(ctx):
             run.inst("C11.B6", "exact-vertex-list:" + user.split("::")[-1], not pads,
                      "%s reads the shape's vertices through %s" % (user.split("::")[-1], "the exact-length list" if not pads else "get_vertices(), the 5-slot array that pads triangles with (0,0)"),
                      where(pads[0].span) if pads else where(fu.fn["span"]))
+    # B6 (census): the padded accessor is read by the two functions that take exactly the first three corners of a triangle
+    # they built themselves, and by nobody else - in particular not by anything a boundary goes through (a Clone written
+    # through PentagonShape::new(self.get_vertices()) turns a 3-vertex shape into a 5-vertex one)
+    GV_OK = ("a5::core::tiling::get_quintant_vertices", "a5::projections::dodecahedron::DodecahedronProjection::get_base_face_triangle")
+    gv_users = sorted({p_ for p_, f_ in facts.fns.items() if f_["kind"] in ("Fn", "AssocFn", "Closure") and p_ not in getattr(facts, "spliced_helpers", ())
+                       and any(c_.callee == GV for c_ in fn_terms(facts, p_).calls())})
+    extra_gv = [p_ for p_ in gv_users if p_ not in GV_OK and not any(p_.startswith(ok_ + "::{closure") for ok_ in GV_OK)]
+    run.inst("C11.B6", "padded-accessor-readers", not extra_gv,
+             "get_vertices() (5 slots, triangles padded with (0,0)) is read by %s%s" % ([u.split("::")[-1] for u in gv_users], "" if not extra_gv else "; not among the two triangle builders: %s" % [u.split("::")[-2:] for u in extra_gv]),
+             where(facts.fns[extra_gv[0]]["span"]) if extra_gv else None)
     # B7: split_edges emits, for every vertex of the shape, that vertex followed by exactly segments - 1 interior points:
     # the number of points per edge is an integer count, never the outcome of floating-point accumulation
     if SPLIT in facts.fns:
